@@ -42,6 +42,15 @@ JudgeForm(c, P, f) ==
                        IF x.st = "ok" THEN Tri(tag("C12.resolve"), f.resolve.ok /\ VEq(f.resolve.v, x.v) /\ f.resolve.pos = Len(c.wbytes))
                        ELSE IF x.st = "raise" THEN Tri(tag("C12.resolve"), ~f.resolve.ok /\ \E i \in 1..Len(f.resolve.exc) : f.resolve.exc[i] = "SchemaResolutionError")
                        ELSE Cl(tag("C12.resolve"), "unspec"),
+             \* ... and the same through the JSON reader (numbers by value)
+             IF "rschema" \notin DOMAIN c \/ "jsonresolve" \notin DOMAIN f \/ c.json_known \/ ~jenc.ok THEN Cl(tag("C12.json_resolve"), "skip")
+             ELSE LET R == Parse(c.rschema) IN
+                  IF ~R.ok \/ c.wbytes # enc.b THEN Cl(tag("C12.json_resolve"), "skip")
+                  ELSE IF \E a, b \in DOMAIN names \cup DOMAIN R.st.names : a # b /\ Unqual(a) = Unqual(b) THEN Cl(tag("C12.json_resolve"), "unspec")
+                  ELSE LET x == Resolve(t, R.t, c.wbytes, names, R.st.names) IN
+                       IF x.st = "ok" THEN Tri(tag("C12.json_resolve"), f.jsonresolve.ok /\ Len(f.jsonresolve.recs) = 1 /\ VEqN(f.jsonresolve.recs[1], x.v))
+                       ELSE IF x.st = "raise" THEN Tri(tag("C12.json_resolve"), ~f.jsonresolve.ok)
+                       ELSE Cl(tag("C12.json_resolve"), "unspec"),
              Tri(tag("C12.validate"), f.validate.ok /\ f.validate.v = [p |-> "bool", b |-> TRUE]),
              Tri(tag("C12.canon"), f.canon.ok /\ f.canon.text = CanonText(CanonTree(t))),
              \* data generation under a fixed state of the random source gives the same values under every form
